@@ -332,3 +332,193 @@ Example split_examples :
   /\ split_iri [104;58;97;58;98] = ([104;58;97;58], [98])                                               (* h:a:b *)
   /\ split_iri [97;98;99] = ([97;98;99], []).                                                           (* abc: no break character *)
 Proof. vm_compute. repeat split; reflexivity. Qed.
+
+(* ------------------------------------------------------------------------------------------- *)
+(* C. indentation                                                                               *)
+(* ------------------------------------------------------------------------------------------- *)
+Lemma wr_none slb lvl evs : wr None slb lvl evs = evs.
+Proof.
+  revert slb lvl. induction evs as [|e r IH]; intros; [reflexivity|].
+  destruct e; simpl; rewrite IH; reflexivity.
+Qed.
+
+Lemma unesc_no_amp strict lit s : has 38 s = false -> unesc strict lit None s = Some (map lit s).
+Proof.
+  induction s as [|c s IH]; [reflexivity|]. rewrite has_cons. intros H.
+  apply orb_false_iff in H as [A B]. simpl. rewrite (N.eqb_sym c 38), A, (IH B). reflexivity.
+Qed.
+
+Lemma pad_chars n : forallb (fun c => (c =? 10) || (c =? 32)) (pad_str n) = true.
+Proof. unfold pad_str. simpl. induction (N.to_nat n) as [|k IH]; [reflexivity|]. simpl. exact IH. Qed.
+Lemma forallb_impl {A} (P Q : A -> bool) l : (forall x, P x = true -> Q x = true) -> forallb P l = true -> forallb Q l = true.
+Proof. intros H. induction l as [|x l IH]; [reflexivity|]. simpl. intros E. apply andb_true_iff in E as [A1 B]. rewrite (H x A1), (IH B). reflexivity. Qed.
+Lemma pad_is P n : P 10 = true -> P 32 = true -> forallb P (pad_str n) = true.
+Proof.
+  intros H10 H32. apply (forallb_impl _ _ _ (fun c Hc => _) (pad_chars n)).
+  Unshelve. apply orb_true_iff in Hc as [E|E]; apply N.eqb_eq in E; subst; assumption.
+Qed.
+Lemma pad_ws n : ws_only (pad_str n) = true.
+Proof. apply pad_is; reflexivity. Qed.
+Lemma map_idN s : map idN s = s.
+Proof. induction s as [|c s IH]; [reflexivity|]. simpl. rewrite IH. reflexivity. Qed.
+Lemma pad_rd strict n : rd_text strict (pad_str n) = Some (pad_str n).
+Proof.
+  assert (H38 : has 38 (pad_str n) = false) by (apply has_false_forallb, pad_is; reflexivity).
+  assert (H13 : has 13 (pad_str n) = false) by (apply has_false_forallb, pad_is; reflexivity).
+  destruct strict; simpl.
+  - unfold xml_read_text. unfold xml_str. rewrite (pad_is is_xml_char n eq_refl eq_refl).
+    rewrite (norm_eol_no_cr _ H13), (unesc_no_amp _ _ _ H38), map_idN. reflexivity.
+  - unfold rio_unescape. rewrite (unesc_no_amp _ _ _ H38), map_idN. reflexivity.
+Qed.
+
+(* reader states in which a text event is element-only whitespace *)
+Definition safe (st : option rstate) : bool :=
+  match st with Some (MProp _ _ _ _ _ _, _) => false | _ => true end.
+Lemma step_pad strict s n : safe (Some s) = true -> step strict s (EPad n) = Some s.
+Proof.
+  destruct s as [m acc]. destruct m; simpl; try discriminate; intros _;
+    unfold step_text; rewrite pad_rd, pad_ws; reflexivity.
+Qed.
+Lemma run_none strict evs : run strict None evs = None.
+Proof. destruct evs; reflexivity. Qed.
+
+(* the shape of what the formatter emits: a property start tag is directly followed by its text *)
+Definition is_prop_q (q : qname) : bool := match q with QLocal _ | QPropEmpty => true | _ => false end.
+Fixpoint shaped (evs : list event) : bool :=
+  match evs with
+  | [] => true
+  | EStart q _ :: r =>
+      (if is_prop_q q then match r with EText _ :: _ => true | _ => false end else true) && shaped r
+  | EDecl :: _ | EPad _ :: _ => false
+  | _ :: r => shaped r
+  end.
+
+Lemma reserved_desc : str_eqb (rdf_ns ++ l_Description) rdf_li = false /\ is_reserved (rdf_ns ++ l_Description) = true.
+Proof. vm_compute. auto. Qed.
+Lemma reserved_rdf : str_eqb (rdf_ns ++ l_RDF) rdf_li = false /\ is_reserved (rdf_ns ++ l_RDF) = true.
+Proof. vm_compute. auto. Qed.
+
+Lemma step_start_safe strict s q a : is_prop_q q = false -> safe (step_start strict s q a) = true.
+Proof.
+  destruct s as [m acc]. intros Hq. destruct m; simpl.
+  - destruct q; try reflexivity.
+  - destruct q; try reflexivity. destruct (read_subject strict a); reflexivity.
+  - reflexivity.
+  - unfold start_prop. destruct q; try discriminate; cbn [resolve_prop].
+    + destruct reserved_rdf as [-> ->]. reflexivity.
+    + destruct reserved_desc as [-> ->]. reflexivity.
+  - reflexivity.
+Qed.
+Lemma step_end_safe s : safe (step_end s) = true.
+Proof. destruct s as [m acc]. destruct m; reflexivity. Qed.
+
+(* MAIN LEMMA: on shaped event lists the indenting writer's pads are invisible to the reader,
+   from every reader state (including failing runs), both readers *)
+Lemma run_wr strict n : forall evs st slb lvl,
+  shaped evs = true ->
+  (slb = true -> safe st = true \/ exists t r, evs = EText t :: r) ->
+  run strict st (wr (Some n) slb lvl evs) = run strict st evs.
+Proof.
+  induction evs as [|e r IH]; intros st slb lvl Hsh Hsafe; [reflexivity|].
+  destruct st as [s|]; [|rewrite !run_none; reflexivity].
+  assert (Hskip : forall l rest, (forall t r', e :: r <> EText t :: r') ->
+            run strict (Some s) ((if slb then [EPad l] else []) ++ rest) = run strict (Some s) rest).
+  { intros l rest Hne. destruct slb; [|reflexivity]. simpl.
+    destruct (Hsafe eq_refl) as [Hs|(t & r' & E)]; [|exfalso; exact (Hne t r' E)].
+    rewrite (step_pad strict s l Hs). reflexivity. }
+  destruct e as [|q a|q|q a|raw|k]; try discriminate.
+  - (* EStart *)
+    cbn [wr]. rewrite Hskip by (intros; discriminate). cbn [run].
+    cbn [shaped] in Hsh. apply andb_true_iff in Hsh as [Hq Hr].
+    apply IH; [exact Hr|]. intros _.
+    destruct (is_prop_q q) eqn:Eq.
+    + right. destruct r as [|[] r']; try discriminate. eauto.
+    + left. cbn [step]. apply step_start_safe. exact Eq.
+  - (* EEnd *)
+    cbn [wr]. rewrite Hskip by (intros; discriminate). cbn [run].
+    apply IH; [exact Hsh|]. intros _. left. cbn [step]. apply step_end_safe.
+  - (* EEmpty *)
+    cbn [wr]. rewrite Hskip by (intros; discriminate). cbn [run].
+    apply IH; [exact Hsh|]. intros _. left. cbn [step].
+    destruct (step_start strict s q a); [apply step_end_safe|reflexivity].
+  - (* EText *)
+    cbn [wr run]. apply IH; [exact Hsh|]. intros; discriminate.
+Qed.
+
+Lemma prop_name_is_prop p : is_prop_q (fst (prop_name p)) = true.
+Proof. unfold prop_name. destruct (split_iri p) as [ns loc]. destruct loc; reflexivity. Qed.
+
+Lemma shaped_fmt_prop p o rest : shaped (fmt_prop p o ++ rest) = shaped rest.
+Proof.
+  unfold fmt_prop. pose proof (prop_name_is_prop p) as Hq. destruct (prop_name p) as [q x]. simpl in Hq.
+  destruct o as [[i|b]|v|v tag|v dt]; simpl; try rewrite Hq; reflexivity.
+Qed.
+Lemma shaped_fmt_triple cur t rest : shaped (fmt_triple cur t ++ rest) = shaped rest.
+Proof.
+  destruct t as [[s p] o]. unfold fmt_triple. rewrite <- app_assoc.
+  unfold fmt_open. destruct cur as [c|]; [destruct (rnode_eqb c s)|]; simpl; apply shaped_fmt_prop.
+Qed.
+Lemma shaped_fmt_body ts : forall cur rest, shaped (fmt_body cur ts ++ rest) = shaped rest.
+Proof.
+  induction ts as [|t ts IH]; intros cur rest.
+  - destruct cur; reflexivity.
+  - cbn [fmt_body]. rewrite <- app_assoc, shaped_fmt_triple. apply IH.
+Qed.
+
+(* THEOREM (indentation): the document written with any indentation reads exactly as the
+   unindented one -- for EVERY list of Rio triples, with both readers, including the cases where
+   reading fails or loses something.  In particular no pad ever lands inside a literal. *)
+Theorem indent_invisible strict n ts :
+  read strict (wr (Some n) false 0 (fmt_doc ts)) = read strict (fmt_doc ts).
+Proof.
+  unfold read, fmt_doc. cbn [wr app]. cbn [run step].
+  rewrite (step_pad strict (MDoc, []) 0 eq_refl). cbn [run step step_start].
+  rewrite run_wr; [reflexivity| |intros _; left; reflexivity].
+  rewrite shaped_fmt_body. reflexivity.
+Qed.
+
+Corollary indentation_irrelevant strict k ts :
+  read strict (doc_events k ts) = read strict (fmt_doc ts).
+Proof.
+  unfold doc_events, indent_opt. destruct (k =? 0); [rewrite wr_none; reflexivity|apply indent_invisible].
+Qed.
+
+(* the indenting writer only ever adds EPad events: dropping them gives back the input *)
+Fixpoint unpad (evs : list event) : list event :=
+  match evs with [] => [] | EPad _ :: r => unpad r | e :: r => e :: unpad r end.
+Lemma unpad_wr ind : forall evs slb lvl, unpad (wr ind slb lvl evs) = unpad evs.
+Proof.
+  induction evs as [|e r IH]; intros; [reflexivity|].
+  destruct e; cbn [wr]; destruct ind as [n|]; try destruct slb; cbn [app unpad]; rewrite ?IH; reflexivity.
+Qed.
+(* ... and a pad is never adjacent to a text event (so lexing the flattened bytes gives back
+   exactly these events: pads are separate whitespace-only text nodes between two tags) *)
+Fixpoint pads_between_tags (prev_text : bool) (evs : list event) : bool :=
+  match evs with
+  | [] => true
+  | EPad _ :: r => negb prev_text && (match r with EText _ :: _ | EPad _ :: _ | [] => false | _ => true end) && pads_between_tags false r
+  | EText _ :: r => pads_between_tags true r
+  | _ :: r => pads_between_tags false r
+  end.
+Fixpoint no_pad (evs : list event) : bool :=
+  match evs with [] => true | EPad _ :: _ => false | _ :: r => no_pad r end.
+Lemma pads_wr n : forall evs slb lvl prev,
+  no_pad evs = true -> (prev = true -> slb = false) ->
+  pads_between_tags prev (wr (Some n) slb lvl evs) = true.
+Proof.
+  induction evs as [|e r IH]; intros slb lvl prev Hnp Hprev; [reflexivity|].
+  destruct e; try discriminate; cbn [wr]; cbn [no_pad] in Hnp.
+  - destruct slb; cbn [app pads_between_tags].
+    + destruct prev; [discriminate (Hprev eq_refl)|]. simpl. apply IH; [exact Hnp|discriminate].
+    + apply IH; [exact Hnp|discriminate].
+  - destruct slb; cbn [app pads_between_tags].
+    + destruct prev; [discriminate (Hprev eq_refl)|]. simpl. apply IH; [exact Hnp|discriminate].
+    + apply IH; [exact Hnp|discriminate].
+  - destruct slb; cbn [app pads_between_tags].
+    + destruct prev; [discriminate (Hprev eq_refl)|]. simpl. apply IH; [exact Hnp|discriminate].
+    + apply IH; [exact Hnp|discriminate].
+  - destruct slb; cbn [app pads_between_tags].
+    + destruct prev; [discriminate (Hprev eq_refl)|]. simpl. apply IH; [exact Hnp|discriminate].
+    + apply IH; [exact Hnp|discriminate].
+  - cbn [pads_between_tags]. apply IH; [exact Hnp|reflexivity].
+Qed.
